@@ -15,7 +15,8 @@ RULE = ('lock-step histories on a document: appendChild / insertBefore / removeC
         'the model\'s element_dict and _styles_dict are compared with the real ones. Exhaustive for length <= 2 over a working set with a '
         'pre-linked subtree, seeded random up to length 14. non-trivial = a step that changes the set of attached elements or raises.')
 TRUSTED = ['modelled abstractions as for C08 (Dom.v header); the generator replacement of xml()/metaxml()/save() is driven on the model as removeChild + constructor + addElement']
-ASSUMPTIONS = ['style names are unique among the styles in play (name clashes are property C11)']
+ASSUMPTIONS = ['in the model, style names are unique among the styles in play (what the real code does on a clash through the API - it renames the newcomer - is exercised by oracle-only histories)',
+               'the style:name of a registered style is not changed afterwards (the property quantifies over tree edits, serialisations and loads; after setAttribute(\'name\', ..) the lookup still answers to the old name)']
 
 RENDERS = ['xml', 'save', 'contentxml', 'stylesxml', 'metaxml', 'settingsxml']
 
